@@ -615,3 +615,132 @@ func ruleRemoveRefusal(c *Ctx, rule string) {
 	}
 
 }
+
+func init() {
+	prev := registry["C06"].Run
+	registry["C06"].Run = func(c *Ctx) { prev(c); extraC06PosReads(c) }
+}
+
+// exprGuards: the atoms that hold when evaluation reaches node n inside the expression root
+// (short-circuit: the right operand of a && b is evaluated only when a is true, of a || b only
+// when a is false).
+func exprGuards(root ast.Expr, n ast.Node) []core.Atom {
+	var out []core.Atom
+	var path []ast.Node
+	var found []ast.Node
+	ast.Inspect(root, func(x ast.Node) bool {
+		if found != nil {
+			return false
+		}
+		if x == nil {
+			path = path[:len(path)-1]
+			return false
+		}
+		path = append(path, x)
+		if x == n {
+			found = append([]ast.Node{}, path...)
+			return false
+		}
+		return true
+	})
+	for i := 0; i+1 < len(found); i++ {
+		be, ok := found[i].(*ast.BinaryExpr)
+		if !ok || (be.Op != token.LAND && be.Op != token.LOR) {
+			continue
+		}
+		// is the next node on the path inside the right operand?
+		nx := found[i+1]
+		if nx.Pos() >= be.Y.Pos() && nx.End() <= be.Y.End() {
+			out = append(out, core.Atoms([]core.Fact{{Expr: be.X, Val: be.Op == token.LAND}})...)
+		}
+	}
+	return out
+}
+
+// extraC06PosReads is C06-R11: a cell's position means something only for the sequences that own
+// the cell (a freed cell keeps a stale position, a shared range holds other sequences' cells).
+func extraC06PosReads(c *Ctx) {
+	c.Rule("C06-R11", "a cell's position is read only for an owner: every read of cacheCell.pos in package kvcache is evaluated only where slices.Contains(<that cell>.sequences, s) is known to be true — on the path to it, or earlier in the same && / || chain (a freed cell keeps its old position, and the cell range of a sequence contains cells of other sequences, so a position read without the membership test decides on another sequence's data: shift would move foreign keys, CanResume would take a stale position for the newest)")
+	info := c.P.Pkgs["kvcache"].TypesInfo
+	fPos := c.P.LookupField("kvcache", "cacheCell", "pos")
+	fSeqs := c.P.LookupField("kvcache", "cacheCell", "sequences")
+	if fPos == nil || fSeqs == nil {
+		c.Undecided("C06-R11", "cacheCell.pos / cacheCell.sequences", "", "field not found")
+		return
+	}
+	n := 0
+	for _, top := range c.P.FuncsOf("kvcache") {
+		if strings.HasSuffix(c.Pos(top.Body), "_test.go") {
+			continue
+		}
+		for _, f := range append([]*core.Func{top}, top.Lits()...) {
+			g := c.G(f)
+			// pure stores (x.pos = v) are not reads
+			stores := map[ast.Node]bool{}
+			core.InspectShallow(f.Body, func(m ast.Node) bool {
+				if as, ok := m.(*ast.AssignStmt); ok && as.Tok == token.ASSIGN {
+					for _, l := range as.Lhs {
+						stores[ast.Unparen(l)] = true
+					}
+				}
+				return true
+			})
+			// statement-level roots to search for short-circuit guards
+			seq := map[string]int{}
+			core.InspectShallow(f.Body, func(m ast.Node) bool {
+				sel, ok := m.(*ast.SelectorExpr)
+				if !ok || core.FieldVar(info, sel) != fPos || stores[sel] {
+					return true
+				}
+				// log/format arguments do not decide anything
+				cell := core.ExprString(sel.X)
+				atoms := g.AtomsAt(g.Locate(sel))
+				if root := enclosingCond(f.Body, sel); root != nil {
+					atoms = append(atoms, exprGuards(root, sel)...)
+				}
+				guarded := false
+				for _, a := range atoms {
+					call, isC := ast.Unparen(a.Expr).(*ast.CallExpr)
+					if !isC || !a.Val || core.CalleeName(info, call) != "slices.Contains" || len(call.Args) != 2 {
+						continue
+					}
+					if s2, isS := ast.Unparen(call.Args[0]).(*ast.SelectorExpr); isS && core.FieldVar(info, s2) == fSeqs && core.ExprString(s2.X) == cell {
+						guarded = true
+					}
+				}
+				n++
+				k := normCell(cell) + ".pos"
+				seq[k]++
+				key := f.Key() + " read:" + k
+				if seq[k] > 1 {
+					key += "#" + itoa(seq[k])
+				}
+				c.Check("C06-R11", key, c.Pos(sel), guarded, "position of "+cell+" is used without a dominating slices.Contains("+cell+".sequences, …): the cell may be free or belong to another sequence")
+				return true
+			})
+		}
+	}
+	c.Expect("C06-R11", "reads of cacheCell.pos", n, 9)
+}
+
+// enclosingCond returns the outermost expression that contains n (the condition or right-hand
+// side it is part of).
+func enclosingCond(body ast.Node, n ast.Node) ast.Expr {
+	var best ast.Expr
+	ast.Inspect(body, func(x ast.Node) bool {
+		if x == nil || best != nil {
+			return false
+		}
+		if x.Pos() > n.Pos() || x.End() < n.End() {
+			return false
+		}
+		if e, ok := x.(ast.Expr); ok {
+			if _, isLit := x.(*ast.FuncLit); !isLit {
+				best = e
+				return false
+			}
+		}
+		return true
+	})
+	return best
+}
